@@ -59,6 +59,11 @@ def worker(job):
         k = state["first_attempts"]
         state["first_attempts"] += 1
         state.setdefault("firsts", []).append({k2: (None if hasattr(v, "shape") else v) for k2, v in kwargs.items()})
+        if layer == "reference" and target is not None and k == target:
+            # no failure: this one fit is simply solved without weight normalisation (what a retried fit amounts to)
+            kwargs["normalize_weights"] = False
+            state["raised"] = True
+            return
         if layer == "fit" and target is not None and k == target:
             state["raised"] = True
             if kind == "SolverError":
@@ -118,8 +123,15 @@ def run(chk):
         # several quantiles, where a failure can leave coefficients of the earlier quantiles behind)
         for k in range(b["n_inner"]):
             jobs.append((s, kw, k, "SolverError" if k % 2 == 0 else "UserWarning", "solve"))
+        if kw.get("model_parameters", {}).get("lambda_"):
+            # regularised: the retried fit solves a differently scaled problem (finding F20), so "same tables" is additionally
+            # checked against the run in which exactly that fit -- and no other -- is solved without normalisation
+            for k in range(b["n_first"]):
+                jobs.append((s, kw, k, "none", "reference"))
     outs = core.pmap(worker, jobs)
     base_by = {json.dumps([s, kw], sort_keys=True): b for b, s, kw in zip(bases, seeds, configs)}
+    refs = {json.dumps([o["job"][0], o["job"][1], o["job"][2]], sort_keys=True): o for o in outs if o["job"][4] == "reference"}
+    outs = [o for o in outs if o["job"][4] != "reference"]
     for o in outs:
         s, kw, k, kind, layer = o["job"]
         b = base_by[json.dumps([s, kw], sort_keys=True)]
@@ -151,6 +163,12 @@ def run(chk):
         diff = compare_tables(b["tables"], o["tables"])
         if diff:
             chk.violation(f"{kind} at fit {k} of {o['cfg']}: {diff}", replay, {"kind": "tables-differ", "regularised": bool(o["cfg"]["lambda"])})
+        ref = refs.get(json.dumps([s, kw, k], sort_keys=True))
+        if ref is not None and ref["ok"]:
+            diff2 = compare_tables(ref["tables"], o["tables"])
+            if diff2:
+                chk.violation(f"{kind} at fit {k} of {o['cfg']}: the tables differ from the run in which only fit {k} is solved without weight normalisation: {diff2}",
+                              replay, {"kind": "tables-differ-beyond-retry"})
     if not ok and not [v for v in chk.violations if not v["no_input"]]:
         chk.violation("proof obligations / generated facts of C20 no longer check", {"theorem_file": "coq/Properties/C20.v", "log": rep.get("log_tail", "")[-1500:],
                                                                                    "translator": chk.notes.get("translator_problems")}, {"kind": "proof-broken"}, no_input=True)
